@@ -18,6 +18,39 @@ func (o *OperandPegImpl) Require66h() bool {
 	is16bitMode := o.bitMode == cpu.MODE_16BIT
 	is32bitMode := o.bitMode == cpu.MODE_32BIT // 16ビットでなければ32ビットと仮定
 
+	// オペランドサイズを決めるのはレジスタと型付きメモリ (BYTE/WORD/DWORD [..]) である。
+	// それらが一つでもあれば、即値の大きさやアドレス指定に使うレジスタはオペランドサイズに影響しない
+	// (例: 16ビットモードの ADD AX,0x8000 や MOV CX,[EAX+8] に 66h は不要、MOV DWORD [BX],1 には必要)。
+	sized := false
+	for _, parsed := range o.parsedOperands {
+		if parsed == nil {
+			continue
+		}
+		size := 0
+		t := parsed.Type
+		switch {
+		case isR8Type(t) || t == CodeM8 || (t == CodeM && parsed.DataType == ast.Byte):
+			size = 8
+		case isR16Type(t) || t == CodeM16 || (t == CodeM && parsed.DataType == ast.Word):
+			size = 16
+		case isR32Type(t) || isCREGType(t) || t == CodeM32 || (t == CodeM && parsed.DataType == ast.Dword):
+			size = 32
+		case isR64Type(t):
+			size = 64
+		}
+		if size == 0 {
+			continue
+		}
+		sized = true
+		if (is16bitMode && size == 32) || (is32bitMode && size == 16) {
+			return true
+		}
+	}
+	if sized {
+		return false
+	}
+
+	// サイズを決めるオペランドがない場合 (即値のみ、型なしメモリのみ) は従来どおり推定する
 	for _, parsed := range o.parsedOperands {
 		if parsed == nil {
 			continue
